@@ -766,3 +766,142 @@ Fixpoint blocks_features (ftype : option str) (bs : list block) : res (list feat
 (* ---- sep=None for BLAST / MMseqs2: rows of blank-free tokens separated by runs of blanks ---- *)
 Definition wsrow_simple_ok (d : dialect) (r : wsrow) : bool :=
   wsrow_ok (S (length (w_cells r))) r && simple_tok (w_last r) && negb (mm_header_toks d (wsrow_toks r)).
+
+(* ================================================================== round 7 *)
+
+(* ---- any list of lines: which lines are data lines, and what they read to ---- *)
+(* the tokens of a data line, core.py:297 *)
+Definition line_toks (sep : option byte) (maxsplit : option nat) (line : str) : list str := py_split sep maxsplit (strip_ws line).
+(* the MMseqs2 name-row test of core.py:285-287 on a line *)
+Definition names_row (d : dialect) (sep : option byte) (line : str) : bool :=
+  match d with
+  | Mmseqs => let hf := py_split sep None (strip_ws line) in Nat.ltb 1 (length hf) && subset hf MMSEQS_HEADER_NAMES
+  | _ => false
+  end.
+(* a data line: neither a '#' line nor blank nor an MMseqs2 name row *)
+Definition data_line (d : dialect) (sep : option byte) (line : str) : bool :=
+  negb (starts_with (bs "#"%bs) line || blank line) && negb (names_row d sep line).
+(* what the data lines of a text read to when the columns hs are known: row_feature of each, in order, first error wins *)
+Definition lines_features (d : dialect) (ftype : option str) (hs : list hdr) (sep : option byte) (maxsplit : option nat)
+           (ls : list str) : res (list feat) :=
+  rows_features d ftype hs (map (line_toks sep maxsplit) (filter (data_line d sep) ls)).
+(* a line that would start header discovery when no outfmt= is given (core.py:274, 285) *)
+Definition discovery_line (d : dialect) (sep : option byte) (line : str) : bool :=
+  match d with
+  | Blast => starts_with (bs "# Fields:"%bs) line
+  | Mmseqs => names_row Mmseqs sep line
+  | Infernal => true
+  end.
+Definition skip_any (line : str) : bool := starts_with (bs "#"%bs) line || blank line.
+
+(* ---- every column has a declared type (written from the BLAST+ / MMseqs2 / Infernal manuals, not read from sugar) ---- *)
+Definition DECLARED_blast : list (str * coltype) :=
+  [((bs "bitscore"%bs), TFloat); ((bs "btop"%bs), TStr); ((bs "evalue"%bs), TFloat); ((bs "frames"%bs), TStr);
+   ((bs "gapopen"%bs), TInt); ((bs "gaps"%bs), TInt); ((bs "length"%bs), TInt); ((bs "mismatch"%bs), TInt);
+   ((bs "nident"%bs), TInt); ((bs "pident"%bs), TFloat); ((bs "positive"%bs), TInt); ((bs "ppos"%bs), TFloat);
+   ((bs "qacc"%bs), TStr); ((bs "qaccver"%bs), TStr); ((bs "qcovhsp"%bs), TFloat); ((bs "qcovs"%bs), TFloat);
+   ((bs "qcovus"%bs), TFloat); ((bs "qend"%bs), TInt); ((bs "qframe"%bs), TInt); ((bs "qgi"%bs), TStr);
+   ((bs "qlen"%bs), TInt); ((bs "qseq"%bs), TStr); ((bs "qseqid"%bs), TStr); ((bs "qstart"%bs), TInt);
+   ((bs "sacc"%bs), TStr); ((bs "saccver"%bs), TStr); ((bs "sallacc"%bs), TStr); ((bs "sallgi"%bs), TStr);
+   ((bs "sallseqid"%bs), TStr); ((bs "salltitles"%bs), TStr); ((bs "sblastname"%bs), TStr); ((bs "scomname"%bs), TStr);
+   ((bs "scomnames"%bs), TStr); ((bs "score"%bs), TFloat); ((bs "send"%bs), TInt); ((bs "sframe"%bs), TInt);
+   ((bs "sgi"%bs), TStr); ((bs "slen"%bs), TInt); ((bs "ssciname"%bs), TStr); ((bs "sscinames"%bs), TStr);
+   ((bs "sseq"%bs), TStr); ((bs "sseqid"%bs), TStr); ((bs "sskingdom"%bs), TStr); ((bs "sskingdoms"%bs), TStr);
+   ((bs "sstart"%bs), TInt); ((bs "sstrand"%bs), TStr); ((bs "staxid"%bs), TStr); ((bs "staxids"%bs), TStr);
+   ((bs "stitle"%bs), TStr)].
+Definition DECLARED_mmseqs : list (str * coltype) :=
+  [((bs "alnlen"%bs), TInt); ((bs "bits"%bs), TFloat); ((bs "cigar"%bs), TStr); ((bs "evalue"%bs), TFloat);
+   ((bs "fident"%bs), TFloat); ((bs "gapopen"%bs), TInt); ((bs "mismatch"%bs), TInt); ((bs "nident"%bs), TInt);
+   ((bs "pident"%bs), TFloat); ((bs "ppos"%bs), TFloat); ((bs "qaln"%bs), TStr); ((bs "qcov"%bs), TFloat);
+   ((bs "qend"%bs), TInt); ((bs "qframe"%bs), TStr); ((bs "qheader"%bs), TStr); ((bs "qlen"%bs), TInt);
+   ((bs "qorfend"%bs), TInt); ((bs "qorfstart"%bs), TInt); ((bs "qseq"%bs), TStr); ((bs "qset"%bs), TStr);
+   ((bs "qsetid"%bs), TStr); ((bs "qstart"%bs), TInt); ((bs "query"%bs), TStr); ((bs "raw"%bs), TStr);
+   ((bs "taln"%bs), TStr); ((bs "target"%bs), TStr); ((bs "taxid"%bs), TStr); ((bs "taxlineage"%bs), TStr);
+   ((bs "taxname"%bs), TStr); ((bs "tcov"%bs), TFloat); ((bs "tend"%bs), TInt); ((bs "tframe"%bs), TStr);
+   ((bs "theader"%bs), TStr); ((bs "tlen"%bs), TInt); ((bs "torfend"%bs), TInt); ((bs "torfstart"%bs), TInt);
+   ((bs "tseq"%bs), TStr); ((bs "tset"%bs), TStr); ((bs "tsetid"%bs), TStr); ((bs "tstart"%bs), TInt)].
+Definition DECLARED_infernal : list (str * coltype) :=
+  [((bs "anyfrct1"%bs), TFloat); ((bs "anyfrct2"%bs), TFloat); ((bs "anyidx"%bs), TFloat); ((bs "bias"%bs), TFloat);
+   ((bs "bitscore"%bs), TFloat); ((bs "clan"%bs), TStr); ((bs "description"%bs), TStr); ((bs "evalue"%bs), TFloat);
+   ((bs "gc"%bs), TFloat); ((bs "idx"%bs), TInt); ((bs "inc"%bs), TStr); ((bs "mend"%bs), TInt); ((bs "mlen"%bs), TInt);
+   ((bs "model"%bs), TStr); ((bs "mstart"%bs), TInt); ((bs "overlap"%bs), TStr); ((bs "pass"%bs), TInt);
+   ((bs "query"%bs), TStr); ((bs "query_acc"%bs), TStr); ((bs "send"%bs), TInt); ((bs "slen"%bs), TInt);
+   ((bs "sstart"%bs), TInt); ((bs "sstrand"%bs), TStr); ((bs "target"%bs), TStr); ((bs "target_acc"%bs), TStr);
+   ((bs "trunc"%bs), TStr); ((bs "winfrct1"%bs), TFloat); ((bs "winfrct2"%bs), TFloat); ((bs "winidx"%bs), TFloat)].
+Definition declared_types (d : dialect) : list (str * coltype) :=
+  match d with Blast => DECLARED_blast | Mmseqs => DECLARED_mmseqs | Infernal => DECLARED_infernal end.
+Definition opt_coltype_eqb (a b : option coltype) : bool :=
+  match a, b with Some x, Some y => coltype_eqb x y | None, None => true | _, _ => false end.
+(* sugar's header table and the declared table name the same columns with the same types *)
+Definition declared_ok (d : dialect) : bool :=
+  forallb (fun hd => opt_coltype_eqb (assoc (hname hd) (declared_types d)) (Some (htype hd))) (header_of d) &&
+  forallb (fun kt => opt_coltype_eqb (type_of_col d (fst kt)) (Some (snd kt))) (declared_types d) &&
+  nodup_str (map fst (declared_types d)).
+(* _CONVERTH: every entry (k, col) names a column of the dialect whose blast_equivalent is k, and - apart from the frame
+   columns, which MMseqs2 writes as text - its type is the type of BLAST's column k *)
+Definition frame_keys : list str := [bs "qframe"%bs; bs "sframe"%bs].
+Definition converth_entry_ok (d : dialect) (e : option str * str) : bool :=
+  match find_hdr false (snd e) (header_of d) with
+  | None => false
+  | Some hd =>
+      match fst e, hbeq hd with
+      | Some k, Some k' => str_eqb k k' &&
+                           (mem k frame_keys || opt_coltype_eqb (type_of_col Blast k) (Some (htype hd)))
+      | None, None => true
+      | _, _ => false
+      end
+  end.
+Definition converth_typed_ok : bool :=
+  forallb (fun d => forallb (converth_entry_ok d) (converth_of d)) dialects &&
+  forallb (fun d => forallb (fun hd => match hbeq hd with
+                                       | Some k => match cget (converth_of d) k with Some c => str_eqb c (hname hd) | None => false end
+                                       | None => true end) (header_of d)) dialects.
+
+(* ---- the common metadata is the documented projection of the format metadata ---- *)
+(* target key of the common metadata <- BLAST-equivalent column (documentation of read_fts for the three readers) *)
+Definition documented_common : list (str * str) :=
+  [(bs "score"%bs, bs "bitscore"%bs); (bs "evalue"%bs, bs "evalue"%bs); (bs "seqid"%bs, bs "sseqid"%bs);
+   (bs "name"%bs, bs "qseqid"%bs)].
+Definition common_projection (d : dialect) (fmt : attrs_t) : attrs_t :=
+  flat_map (fun bm => match assoc (ccol d (fst bm)) fmt with Some v => [(snd bm, v)] | None => [] end) copyattrs.
+Definition type_entry (ftype : option str) (fmt : attrs_t) : attrs_t :=
+  match ftype with
+  | None => []
+  | Some k => [(bs "type"%bs, match assoc k fmt with Some v => v | None => AStr k end)]
+  end.
+Definition same_pairs (a b : list (str * str)) : bool :=
+  Nat.eqb (length a) (length b) &&
+  forallb (fun p => existsb (fun q => str_eqb (fst p) (fst q) && str_eqb (snd p) (snd q)) b) a.
+
+(* ---- float(): the grammar [ws] [sign] digits [. digits] [(e|E) [sign] digits] [ws] ---- *)
+Definition is_digit (c : byte) : bool := match digit_val c with Some _ => true | None => false end.
+Definition all_digits (s : str) : bool := forallb is_digit s.
+(* value of a digit string *)
+Definition digits_val (s : str) : Z := fst (fst (span_digits s 0 0)).
+Definition sign_ok (s : str) : bool := match s with [] => true | [c] => byte_eqb c "+"%byte || byte_eqb c "-"%byte | _ => false end.
+Definition sign_neg (s : str) : bool := match s with [c] => byte_eqb c "-"%byte | _ => false end.
+Definition exp_mark (c : byte) : bool := byte_eqb c "e"%byte || byte_eqb c "E"%byte.
+(* the text of a decimal literal: sign, integer digits, optional fraction (Some fp = a point followed by fp), optional
+   exponent (mark, sign, digits) *)
+Definition float_text (sg ip : str) (fp : option str) (ex : option (byte * str * str)) : str :=
+  sg ++ ip ++ (match fp with Some f => "."%byte :: f | None => [] end) ++
+  (match ex with Some (m, es, ed) => m :: es ++ ed | None => [] end).
+Definition float_text_ok (sg ip : str) (fp : option str) (ex : option (byte * str * str)) : bool :=
+  sign_ok sg && all_digits ip && (match fp with Some f => all_digits f | None => true end) &&
+  negb (Nat.eqb (length ip + match fp with Some f => length f | None => 0 end) 0) &&
+  (match ex with
+   | Some (m, es, ed) => exp_mark m && sign_ok es && all_digits ed && negb (Nat.eqb (length ed) 0)
+   | None => true
+   end).
+Definition float_text_val (sg ip : str) (fp : option str) (ex : option (byte * str * str)) : flit :=
+  let f := match fp with Some f => f | None => [] end in
+  FNum (sign_neg sg) (digits_val (ip ++ f))
+       ((match ex with Some (_, es, ed) => if sign_neg es then - digits_val ed else digits_val ed | None => 0 end)
+        - Z.of_nat (length f)).
+
+(* harness entry point for the float-literal stream: py_float of every literal *)
+Definition run_C11_floats (lits : list str) : val :=
+  VL (map (fun v => match py_float v with Some f => flit_val f | None => VNone end) lits).
+(* ... and for int() *)
+Definition run_C11_ints (lits : list str) : val :=
+  VL (map (fun v => match py_int v with Some z => VI z | None => VNone end) lits).
